@@ -25,6 +25,9 @@ IsAnd(t) == t \in {"AND", "and"}
 IsOr(t) == t \in {"OR", "or"}
 IsNot(t) == t \in {"NOT", "not"}
 
+\* any token that is not a keyword or a parenthesis is an operand (word, phrase or field term)
+IsAtom(t) == ~IsAnd(t) /\ ~IsOr(t) /\ ~IsNot(t) /\ t \notin {"(", ")", "<end>"}
+
 Atom(v) == [k |-> "atom", v |-> v, es |-> <<>>]
 NotE(e) == [k |-> "not", v |-> "", es |-> <<e>>]
 AndE(es) == [k |-> "and", v |-> "", es |-> es]
@@ -81,7 +84,7 @@ ParsePrimary(ts, p, d) ==
          ELSE LET r == ParseExpr(ts, p + 1, d + 1) IN
               IF ~r.ok THEN r
               ELSE IF Tok(ts, r.p) = ")" THEN Ok(r.e, r.p + 1, d) ELSE Fail(r.p)
-  ELSE IF t \in Atoms THEN Ok(Atom(t), p + 1, d)
+  ELSE IF IsAtom(t) THEN Ok(Atom(t), p + 1, d)
   ELSE Fail(p)           \* AND / OR / ")" / end of query where an operand is expected
 
 \* parse_query: as built, tokens after a complete expression are ignored
